@@ -9,7 +9,7 @@ predicate value stored when the segment was opened, compared with `!=`); the obs
 namespace Rx
 
 /-- maximal runs of equal `p`-value -/
-def runsBy {α κ} [DecidableEq κ] (p : α → κ) : List α → List (List α)
+def runsBy {α κ : Type} [DecidableEq κ] (p : α → κ) : List α → List (List α)
   | [] => []
   | x :: xs =>
     match runsBy p xs with
@@ -19,7 +19,7 @@ def runsBy {α κ} [DecidableEq κ] (p : α → κ) : List α → List (List α)
 
 /-! specification of `runsBy`: a partition into non-empty, constant, maximal runs -/
 
-theorem runsBy_flatten {α κ} [DecidableEq κ] (p : α → κ) (xs : List α) : (runsBy p xs).flatten = xs := by
+theorem runsBy_flatten {α κ : Type} [DecidableEq κ] (p : α → κ) (xs : List α) : (runsBy p xs).flatten = xs := by
   induction xs with
   | nil => rfl
   | cons x xs ih =>
@@ -31,7 +31,7 @@ theorem runsBy_flatten {α κ} [DecidableEq κ] (p : α → κ) (xs : List α) :
       rw [h] at ih
       split <;> simpa using ih
 
-theorem runsBy_nonempty {α κ} [DecidableEq κ] (p : α → κ) (xs : List α) : ∀ r ∈ runsBy p xs, r ≠ [] := by
+theorem runsBy_nonempty {α κ : Type} [DecidableEq κ] (p : α → κ) (xs : List α) : ∀ r ∈ runsBy p xs, r ≠ [] := by
   induction xs with
   | nil => simp [runsBy]
   | cons x xs ih =>
@@ -51,7 +51,7 @@ theorem runsBy_nonempty {α κ} [DecidableEq κ] (p : α → κ) (xs : List α) 
         · simp
         · exact ih r' h2
 
-theorem runsBy_constant {α κ} [DecidableEq κ] (p : α → κ) (xs : List α) :
+theorem runsBy_constant {α κ : Type} [DecidableEq κ] (p : α → κ) (xs : List α) :
     ∀ r ∈ runsBy p xs, ∀ a ∈ r, ∀ b ∈ r, p a = p b := by
   induction xs with
   | nil => simp [runsBy]
@@ -88,7 +88,7 @@ def AdjDiff {α κ} (p : α → κ) : List (List α) → Prop
   | [_] => True
   | r1 :: r2 :: rs => (∀ a ∈ r1.getLast?, ∀ b ∈ r2.head?, p a ≠ p b) ∧ AdjDiff p (r2 :: rs)
 
-theorem runsBy_block {α κ} [DecidableEq κ] (p : α → κ) (c : κ) :
+theorem runsBy_block {α κ : Type} [DecidableEq κ] (p : α → κ) (c : κ) :
     ∀ (cur : List α), cur ≠ [] → (∀ y ∈ cur, p y = c) → ∀ (x : α) (xs : List α), p x ≠ c →
       runsBy p (cur ++ x :: xs) = cur :: runsBy p (x :: xs) := by
   intro cur
@@ -122,7 +122,7 @@ theorem runsBy_block {α κ} [DecidableEq κ] (p : α → κ) (c : κ) :
       rw [this]
       simp [ha, hb]
 
-theorem runsBy_const {α κ} [DecidableEq κ] (p : α → κ) (c : κ) :
+theorem runsBy_const {α κ : Type} [DecidableEq κ] (p : α → κ) (c : κ) :
     ∀ (cur : List α), cur ≠ [] → (∀ y ∈ cur, p y = c) → runsBy p cur = [cur] := by
   intro cur
   induction cur with
@@ -138,7 +138,7 @@ theorem runsBy_const {α κ} [DecidableEq κ] (p : α → κ) (c : κ) :
       simp [hall a (by simp), hall b (by simp)]
 
 /-- simulation: from a state with an open segment `cur` (non-empty, all of predicate value `c`) -/
-theorem split_run {α κ} [DecidableEq κ] (p : α → κ) :
+theorem split_run {α κ : Type} [DecidableEq κ] (p : α → κ) :
     ∀ (xs : List α) (c : κ) (cur : List α) (cl : List (List α)) (opn : Nat → Option (List α)),
       cur ≠ [] → (∀ y ∈ cur, p y = c) → opn 0 = some cur →
       let r := (splitLS p).runObs (some c, ⟨opn, cl⟩) xs
@@ -178,7 +178,7 @@ theorem split_run {α κ} [DecidableEq κ] (p : α → κ) :
 /-- **C06**: the segments of one key (completed while items arrive, then the last one at the key's
 completion) are exactly the maximal runs of equal predicate value, in order; a key that received
 no item produces no segment; the last segment is the only one completed at the key's completion -/
-theorem C06_segments {α κ} [DecidableEq κ] (p : α → κ) (xs : List α) :
+theorem C06_segments {α κ : Type} [DecidableEq κ] (p : α → κ) (xs : List α) :
     ((splitLS p).windows xs).1 ++ ((splitLS p).windows xs).2 = runsBy p xs ∧
     ((splitLS p).windows xs).2.length = (if xs = [] then 0 else 1) := by
   cases xs with
@@ -199,6 +199,19 @@ theorem C06_segments {α κ} [DecidableEq κ] (p : α → κ) (xs : List α) :
     simp only [obsRun, obsStep, List.foldl_cons, List.foldl_nil, h2, Option.getD_some, List.nil_append]
     simp only [List.nil_append, List.singleton_append] at h3
     exact ⟨by simpa using h3, by simp⟩
+
+/-- the runs partition the input: concatenated they give back every item once, in order -/
+theorem C06_runs_partition {α κ : Type} [DecidableEq κ] (p : α → κ) (xs : List α) :
+    (runsBy p xs).flatten = xs ∧ (∀ r ∈ runsBy p xs, r ≠ []) ∧
+    (∀ r ∈ runsBy p xs, ∀ a ∈ r, ∀ b ∈ r, p a = p b) :=
+  ⟨runsBy_flatten p xs, runsBy_nonempty p xs, runsBy_constant p xs⟩
+
+/-- a new run starts exactly when the predicate value changes: a block of equal predicate value
+followed by an item of a different value is cut right there -/
+theorem C06_runs_maximal {α κ : Type} [DecidableEq κ] (p : α → κ) (c : κ) (cur : List α) (hne : cur ≠ [])
+    (hall : ∀ y ∈ cur, p y = c) :
+    runsBy p cur = [cur] ∧ ∀ x xs, p x ≠ c → runsBy p (cur ++ x :: xs) = cur :: runsBy p (x :: xs) :=
+  ⟨runsBy_const p c cur hne hall, runsBy_block p c cur hne hall⟩
 
 /-! non-vacuity -/
 example : (splitLS (fun n : Nat => n / 3)).windows [0, 1, 2, 3, 4, 6] = ([[0, 1, 2], [3, 4]], [[6]]) := by decide
